@@ -48,7 +48,7 @@ func C05(tier string) {
 	r := ev.Begin("C05", tier, "exploration")
 	r.NotExhaustive()
 	r.Assume("well-formed files are built from typed descriptions; each grammar file and each quick field value is cross-validated by image/png, image/jpeg or x/image/webp DecodeConfig: a file the decoder rejects with a format error is dropped and counted as a generator fault, one it rejects as unsupported (e.g. some JPEG sampling factors, huge PNG pixel counts) is kept and compared with the description only")
-	r.Rule("PNG: 15 colour-type/bit-depth pairs x interlace x ancillary chunk sequences (depth <= 3 quick / <= 3 thorough over 9 chunk kinds incl. iCCP, PLTE, 9 KiB iTXt) and next-chunk headers at every alignment across the 4096/8192 read boundaries; width/height: walking ones/zeros over 31 bits, byte lanes 0..255 x 3 holds, all values < 2^16 (thorough: all values < 2^24 and 2^17 values around every power of two up to 2^31-1, per field); JPEG: SOF0/SOF2 x 1/3/4 components x sampling factors {1,2}^2 per component, segment sequences (<= 3 before SOF, <= 2 after) over 9 kinds, every APPn, every width and height 1..65535 x 3 holds; WebP: VP8 all 2^14 widths/heights x 3 holds x 16 scale-bit pairs, VP8L the same (thorough: all 2^28 pairs), VP8X walking bits + byte lanes (thorough: all 2^24 per field), all flag bytes; each through the specific loader and autometa; every sequence of up to 4 (thorough 5) Loads over five small files of different formats x {specific, auto} in one process, each result compared with its file\u2019s description; distinct = distinct (format, width, height, bits, structure) descriptions")
+	r.Rule("PNG: 15 colour-type/bit-depth pairs x interlace x ancillary chunk sequences (depth <= 3 quick / <= 3 thorough over 9 chunk kinds incl. iCCP, PLTE, 9 KiB iTXt) and next-chunk headers at every alignment across the 4096/8192 read boundaries; width/height: walking ones/zeros over 31 bits, byte lanes 0..255 x 3 holds, all values < 2^16 (thorough: all values < 2^24 and 2^17 values around every power of two up to 2^31-1, per field); JPEG: SOF0/SOF2 x 1/3/4 components x sampling factors {1,2}^2 per component, segment sequences (<= 3 before SOF, <= 2 after) over 9 kinds, every APPn, every width and height 1..65535 x 3 holds; WebP: VP8 all 2^14 widths/heights x 3 holds x 16 scale-bit pairs, VP8L the same (thorough: every value of one field x 48 values of the other), VP8X walking bits + byte lanes (thorough: all values < 2^20 and 2^13 around every power of two, per field), all flag bytes; each through the specific loader and autometa; every sequence of up to 4 (thorough 5) Loads over five small files of different formats x {specific, auto} in one process, each result compared with its file\u2019s description; distinct = distinct (format, width, height, bits, structure) descriptions")
 	var dropped, unsupported, crossOK atomic.Int64
 	var distinct sync.Map
 	ndistinct := atomic.Int64{}
@@ -257,9 +257,17 @@ func C05(tier string) {
 		}
 	}
 	if tier == "thorough" {
+		// every value below 2^20 and 2^13 values around every power of two above
 		xvals = xvals[:0]
-		for v := uint32(0); v < 1<<24; v++ {
+		for v := uint32(0); v < 1<<20; v++ {
 			xvals = append(xvals, v)
+		}
+		for k := uint(20); k <= 24; k++ {
+			for d := -4096; d < 4096; d++ {
+				if v := int64(1)<<k + int64(d); v >= 1<<20 && v < 1<<24 {
+					xvals = append(xvals, uint32(v))
+				}
+			}
 		}
 	}
 	r.Par(ev.Workers(), func(shard, n int) {
@@ -280,16 +288,33 @@ func C05(tier string) {
 			}
 		}
 		if tier == "thorough" {
-			// all 2^28 VP8L (width, height) pairs
-			for w1 := shard; w1 < 1<<14; w1 += n {
-				for h1 := 0; h1 < 1<<14; h1++ {
-					data, info := gen.WebPVP8L(uint16(w1), uint16(h1), false, nil, 0)
-					c := Case{"webp VP8L all pairs", data, info}
-					checkBasic(r, &c, "field/webp-vp8l-all")
+			// VP8L: every width x 48 heights and every height x 48 widths (the two
+			// 14-bit fields are independent bit ranges of one 32-bit word; all 2^28
+			// pairs would be 5 x 10^8 loads)
+			var side []int
+			for k := uint(0); k <= 14; k++ {
+				for _, d := range []int{-1, 0, 1} {
+					if v := 1<<k + d; v >= 0 && v < 1<<14 {
+						side = append(side, v)
+					}
 				}
-				r.Eval(2 << 14)
+			}
+			side = append(side, 0x1234&0x3FFF, 0x2AAA, 0x1555, 12345, 9999)
+			for w1 := shard; w1 < 1<<14; w1 += n {
+				for _, h1 := range side {
+					for k := 0; k < 2; k++ {
+						a, b := w1, h1
+						if k == 1 {
+							a, b = h1, w1
+						}
+						data, info := gen.WebPVP8L(uint16(a), uint16(b), false, nil, 0)
+						c := Case{"webp VP8L width x height sweep", data, info}
+						checkBasic(r, &c, "field/webp-vp8l-all")
+					}
+				}
+				r.Eval(int64(4 * len(side)))
 				if r.OutOfTime() {
-					r.Cap("time budget in the 2^28 VP8L sweep")
+					r.Cap("time budget in the VP8L sweep")
 					return
 				}
 			}
